@@ -5,6 +5,8 @@
 import UnytModel.DriverBase
 import UnytModel.Parse
 import UnytModel.Print
+import UnytModel.UnitArith
+import UnytModel.UnitCache
 
 namespace Unyt
 open Parse Print
@@ -64,6 +66,49 @@ def parseBytes (bs : List Nat) : Except PErr (UExpr Rat) :=
   | none => .error .unitParseError                     -- UnicodeDecodeError, caught (fix C20-03)
   | some cs => parseChars cs
 
+/-- the end of `Unit.__new__` when unit data are handed in (`base_value is not None`):
+    `_get_unit_data_from_expr` is not called, so no symbol is looked up -/
+def finishRaw : Val → Except PErr (UExpr Rat)
+  | .fn | .ty => upe                                 -- "must be a string or sympy Expr"
+  | .mono e => .ok e
+  | .bad _ _ _ => .error .unmodelled                 -- built, with an expression outside `UExpr`
+
+/-- `Unit(s, base_value=…, dimensions=…)` for a `str`: `parseChars` without the table look-up -/
+def parseCharsRaw (cs : List Char) : Except PErr (UExpr Rat) :=
+  let cs := if cs.isEmpty then Generated.parseEmptyCodes.map Char.ofNat else cs
+  match tokenize (rewrite cs) with
+  | .error e => .error e
+  | .ok ts =>
+    if hasBinarySign ts then .error .outOfVocabulary else
+    match parseTokens ts with
+    | none => upe
+    | some p =>
+      match evalP p with
+      | .error e => .error e
+      | .ok v => finishRaw v
+
+/-- the cache state machine of `Unit.__new__` with the model's parsers and decoder -/
+def unitNewHistory (ks : List UnitCache.Call) : List (UnitCache.Outcome PErr (UExpr Rat)) × UnitCache.Cache (UExpr Rat) :=
+  UnitCache.history parseChars parseCharsRaw (fun b => decodeUtf8 (b.length + 1) b) .unitParseError [] ks
+
+/-- the same call on a registry that has never been used -/
+def unitNewFresh (k : UnitCache.Call) : UnitCache.Outcome PErr (UExpr Rat) :=
+  UnitCache.fresh parseChars parseCharsRaw (fun b => decodeUtf8 (b.length + 1) b) .unitParseError k
+
+def parseCall (s : String) : Option UnitCache.Call :=
+  match s.splitOn "=" with
+  | ["s", cps] => (cpsToChars cps).map .str
+  | ["w", cps] => (cpsToChars cps).map .withData
+  | ["b", bs] => (if bs.isEmpty then some [] else (bs.splitOn ",").mapM (·.toNat?)).map .bytes
+  | ["c"] => some .clear
+  | _ => none
+
+def outcomeOut : UnitCache.Outcome PErr (UExpr Rat) → String
+  | .hit e => "H|" ++ resFlat (.ok e)
+  | .built e => "B|" ++ resFlat (.ok e)
+  | .error c => "E|" ++ resFlat (.error c)
+  | .done => "C"
+
 /-- NAME tokens compared up to `inv_name_alternatives` (`%` is printed for the symbol `percent`) -/
 def canonTok : Tok → Tok
   | .name s => .name (canonTree s).toList
@@ -109,6 +154,29 @@ def opsC20 : Handler := fun st fields =>
         | .ok ts => if ts.map canonTok == (renderTokens a).map canonTok then "1" else "0"
         | .error _ => "0"
       some (st, s!"ok\t{resFlat (.ok (evalAst a))}\t{resFlat viaTokens}\t{lexed}")
+    | _, _ => none
+  -- a unit built by unit arithmetic (`__mul__`, `__truediv__`, `__rtruediv__`, `__pow__`) from a
+  -- coefficient-free start unit: its expression, str()/repr() and what they re-parse to
+  | ["c20.arith", f0, prog] =>
+    match Factors.parse f0, UnitArith.parseProg prog with
+    | some f, some pr =>
+      let e : UExpr Rat := ⟨1, UnitArith.run f pr⟩
+      let s := unitStr e
+      let r := unitRepr e
+      some (st, s!"ok\t{Factors.str (UExpr.normF e.factors)}\t{charsToCps s.toList}\t{charsToCps r.toList}\t{resFlat (parseUnit s)}\t{resFlat (parseUnit r)}")
+    | _, _ => none
+  -- a history of `Unit(text, registry=reg)` calls on one new registry: per call hit / built / error and the value;
+  -- last field: number of cached texts at the end
+  | ["c20.history", calls] =>
+    match (calls.splitOn "|").mapM parseCall with
+    | none => none
+    | some ks =>
+      let (os, c) := unitNewHistory ks
+      some (st, "ok\t" ++ "\t".intercalate (os.map outcomeOut) ++ s!"\t{c.length}")
+  -- `Rational(p).limit_denominator(B)` = `fractions.Fraction.limit_denominator`
+  | ["c20.limden", b, q] =>
+    match b.toNat?, parseRat q with
+    | some B, some x => if B = 0 then none else some (st, s!"ok\t{ratStr (UnitArith.limitDenominator B x)}")
     | _, _ => none
   | _ => none
 
